@@ -181,6 +181,18 @@ func runC19(c *Ctx) {
 	c19JSON(c, p)
 	c19OptionNormalisation(c, c.P)
 	c19OptionsAgree(c, c.P)
+	c.R.Rule("walk-skipdir", "in the CLI and the linter's directory walk, filepath.SkipDir / fs.SkipDir is returned only where the entry's IsDir() holds")
+	nsd := c19WalkSkipDir(c, c.P, []string{"cmd/gosqlx/cmd", "cmd/gosqlx/internal/actioncmd", "cmd/gosqlx/internal/validate", "cmd/gosqlx/internal/output", "cmd/gosqlx/internal/config", "pkg/linter"}, nil)
+	if nsd == 0 {
+		c.R.OK("walk-skipdir", "scan", "-", "no directory walk returns SkipDir")
+	}
+	if c.Controls {
+		if cp := c.Control("c19"); cp != nil {
+			fired := map[string]bool{}
+			c19WalkSkipDir(c, cp, []string{"gosqlxsa/controls/c19"}, fired)
+			c.R.Control("walk-skipdir", fired["c19.skipHiddenWrong$1|SkipDir#1"] && !fired["c19.skipHiddenRight$1|SkipDir#1"], "controls/c19 skipHiddenWrong (SkipDir for any hidden entry) and skipHiddenRight (only under IsDir())")
+		}
+	}
 }
 
 func c19Helper(c *Ctx, p *core.Prog, h *ssa.Function, fns []*ssa.Function) {
